@@ -48,7 +48,7 @@ RULE = ("random histories (14-28 ops) rich in deletions (cells, spaces with desc
         "or to an object inside a deleted space died")
 
 
-KNOWN_SPACE = "C13-space-deleted-with-uncached-cells"
+KNOWN_SPACE = "C13-deleted-space-uncached-cells"     # repaired by /repo 9b6c361: a `fixed` entry, excuses nothing
 
 
 def resolve(model, path, kind, name):
